@@ -552,6 +552,23 @@ class Engine:
             if t.startswith('{closure@'):
                 return self.mk_closure(t, [], fr)
             return FnItem(t)
+        if p.endswith(')') and not p.startswith('<'):
+            # structured constant: Path::Variant(inner consts)
+            from .mirparse import split_top, parse_const
+            depth = 0
+            for i in range(len(p) - 1, -1, -1):
+                if p[i] == ')':
+                    depth += 1
+                elif p[i] == '(':
+                    depth -= 1
+                    if depth == 0:
+                        break
+            head, inner = p[:i], p[i + 1:-1]
+            args = [self.operand(fr, ('const', parse_const(a))) for a in split_top(inner)]
+            ev = self.enum_variant(head)
+            if ev:
+                return Agg(ev[0], ev[1], args)
+            return Agg(type_last(head), 0, args)
         ev = self.enum_variant(p)
         if ev:
             from .program import TUPLE_VARIANTS
